@@ -271,6 +271,7 @@ structure SInv (E : Env) (s : St) : Prop where
   signing : ∀ ep e, s.rt = .signing ep e → ep = s.seen ∧ s.es = some ep ∧ E.entityEpoch e = ep
   avk : ∀ c ∈ s.certs, c.avk = c.epoch
   esRound : ∀ ep, s.es = some ep → ep ≤ s.seen ∧ s.round = some (ep + 1)
+  roundGt : ∀ K, s.round = some K → ∀ c ∈ s.certs, c.epoch < K
 
 theorem createCertificate_eq_cut (E : Env) (s : St) (e : Nat) :
     createCertificate E s e = match newCert E s e with
@@ -341,8 +342,8 @@ theorem scan_mem (E : Env) (tp : Tp) : ∀ (l : List Nat) (oms : List OM) (e : N
 /-- the invariant reads certs, oms, seen, rt, es, round only -/
 theorem sinv_frame {E : Env} {s s' : St} (h : SInv E s) (hc : s'.certs = s.certs) (ho : s'.oms = s.oms)
     (hs : s'.seen = s.seen) (hr : s'.rt = s.rt) (he : s'.es = s.es) (hro : s'.round = s.round) : SInv E s' := by
-  obtain ⟨a, b, c, d, e, f, g, i⟩ := h
-  refine ⟨?_, ?_, ?_, ?_, ?_, ?_, ?_, ?_⟩
+  obtain ⟨a, b, c, d, e, f, g, i, j⟩ := h
+  refine ⟨?_, ?_, ?_, ?_, ?_, ?_, ?_, ?_, ?_⟩
   · rw [hc]; exact a
   · rw [ho]; exact b
   · rw [hc, hs]; exact c
@@ -351,6 +352,7 @@ theorem sinv_frame {E : Env} {s s' : St} (h : SInv E s) (hc : s'.certs = s.certs
   · rw [hr, hs, he]; exact f
   · rw [hc]; exact g
   · rw [he, hs, hro]; exact i
+  · rw [hro, hc]; exact j
 
 theorem handOverGo_frame (e : Nat) : ∀ (l : List BufSig) (s : St) (r : List Nat),
     (handOverGo s e l r).1.es = s.es ∧ (handOverGo s e l r).1.round = s.round := by
@@ -412,7 +414,7 @@ theorem idleStep_sinv {E : Env} {s : St} (tp : Tp) (last : Option Nat) (h : SInv
       (∀ ep, r = .ready ep → ep = tp.epoch ∧ (epochInit s tp).es = some ep) → (∀ ep e, r ≠ .signing ep e) →
       SInv E { epochInit s tp with rt := r, seen := tp.epoch } := by
     intro r h1 h2 h3
-    refine ⟨h.ct, ?_, ?_, h1, h2, ?_, h.avk, ?_⟩
+    refine ⟨h.ct, ?_, ?_, h1, h2, ?_, h.avk, ?_, ?_⟩
     · intro o ho; exact h.omE o (List.mem_filter.mp ho).1
     · intro c hc; exact Nat.le_trans (h.certLe c hc) hseen
     · intro ep e he; exact absurd he (h3 ep e)
@@ -421,6 +423,10 @@ theorem idleStep_sinv {E : Env} {s : St} (tp : Tp) (last : Option Nat) (h : SInv
       split at hep
       · simp at hep; subst hep; exact ⟨Nat.le_refl _, rfl⟩
       · simp at hep
+    · intro K hK c hc
+      simp only [epochInit, Option.some.injEq] at hK
+      have := Nat.le_trans (h.certLe c hc) hseen
+      omega
   have hidle : ∀ l, s.rt = .idle (some l) → l < tp.epoch := fun l hl => Nat.lt_of_lt_of_le (h.idleLt l hl) hseen
   unfold idleStep
   simp only [hrun, if_true, Bool.true_and]
@@ -466,7 +472,7 @@ theorem readyStepCut_sinv {E : Env} {s : St} (tp : Tp) (p : CrashPoint) (h : SIn
   have key : ∀ (r : Rt), (r = .ready ep ∨ ∃ e, r = .signing tp.epoch e ∧ E.entityEpoch e = tp.epoch) →
       SInv E { s with oms := (scan E tp tp.avail s.oms).1, rt := r, seen := tp.epoch } := by
     intro r hr
-    refine ⟨h.ct, omE_scan E tp tp.avail s.oms h.omE, ?_, ?_, ?_, ?_, h.avk, ?_⟩
+    refine ⟨h.ct, omE_scan E tp tp.avail s.oms h.omE, ?_, ?_, ?_, ?_, h.avk, ?_, h.roundGt⟩
     · intro c hc; exact Nat.le_trans (h.certLe c hc) hseen
     · intro l hl
       rcases hr with rfl | ⟨e, rfl, _⟩ <;> cases hl
@@ -556,7 +562,7 @@ theorem signingStepCut_sinv {E : Env} {s : St} (tp : Tp) (p : CrashPoint) (h : S
       (∀ ep' e', r = .signing ep' e' → ep' = tp.epoch ∧ s.es = some ep' ∧ E.entityEpoch e' = ep') →
       SInv E { s with oms := markExpired tp.now e s.oms, rt := r, seen := tp.epoch } := by
     intro r h1 h2 h3
-    refine ⟨h.ct, homE, ?_, h1, h2, h3, h.avk, ?_⟩
+    refine ⟨h.ct, homE, ?_, h1, h2, h3, h.avk, ?_, h.roundGt⟩
     · intro c hc; exact Nat.le_trans (h.certLe c hc) hseen
     · intro ep' he'
       obtain ⟨a, b⟩ := h.esRound ep' he'
@@ -596,7 +602,7 @@ theorem signingStepCut_sinv {E : Env} {s : St} (tp : Tp) (p : CrashPoint) (h : S
             (∀ o ∈ oms'', o.epoch = E.entityEpoch o.entity) → (r = s.rt ∨ r = .ready ep) →
             SInv E { s with certs := s.certs ++ [c], oms := oms'', rt := r, ses := ses'', seen := tp.epoch } := by
           intro oms'' r ses'' ho'' hr
-          refine ⟨hct, ho'', ?_, ?_, ?_, ?_, ?_, ?_⟩
+          refine ⟨hct, ho'', ?_, ?_, ?_, ?_, ?_, ?_, ?_⟩
           · intro c' hc'
             rcases List.mem_append.mp hc' with hc' | hc'
             · exact Nat.le_trans (h.certLe c' hc') hseen
@@ -621,6 +627,16 @@ theorem signingStepCut_sinv {E : Env} {s : St} (tp : Tp) (p : CrashPoint) (h : S
           · intro ep' he'
             obtain ⟨a, b⟩ := h.esRound ep' he'
             exact ⟨Nat.le_trans a hseen, b⟩
+          · intro K hK c' hc'
+            rcases List.mem_append.mp hc' with hc' | hc'
+            · exact h.roundGt K hK c' hc'
+            · simp only [List.mem_singleton] at hc'; subst hc'
+              have hr := (h.esRound ep hes).2
+              have hK' : s.round = some K := hK
+              rw [hr] at hK'
+              simp only [Option.some.injEq] at hK'
+              have := hcav.2
+              omega
         have hcert : ∀ o ∈ updOm e (fun o => { o with certified := true }) (markExpired tp.now e s.oms),
             o.epoch = E.entityEpoch o.entity := omE_updOm (E := E) e certify_mono homE
         have hready : readyOf s.rt = .ready ep := by rw [hrt]; rfl
@@ -649,7 +665,7 @@ theorem crashTick_sinv {E : Env} {s : St} (tp : Tp) (p : CrashPoint) (h : SInv E
     have keyB : ∀ (r : Rt), (∀ l, r = .idle (some l) → l < tp.epoch) → (∀ ep, r ≠ .ready ep) → (∀ ep e, r ≠ .signing ep e) →
         SInv E { s with rt := r, seen := tp.epoch } := by
       intro r h1 h2 h3
-      refine ⟨h.ct, h.omE, ?_, h1, ?_, ?_, h.avk, ?_⟩
+      refine ⟨h.ct, h.omE, ?_, h1, ?_, ?_, h.avk, ?_, h.roundGt⟩
       · intro c hc; exact Nat.le_trans (h.certLe c hc) hseen
       · intro ep he; exact absurd he (h2 ep)
       · intro ep e he; exact absurd he (h3 ep e)
@@ -666,7 +682,7 @@ theorem crashTick_sinv {E : Env} {s : St} (tp : Tp) (p : CrashPoint) (h : SInv E
   · rename_i ep hrt
     split
     · rename_i hlt
-      refine ⟨h.ct, h.omE, ?_, ?_, ?_, ?_, h.avk, ?_⟩
+      refine ⟨h.ct, h.omE, ?_, ?_, ?_, ?_, h.avk, ?_, h.roundGt⟩
       · intro c hc; exact Nat.le_trans (h.certLe c hc) hseen
       · intro l hl; simp only [Rt.idle.injEq, Option.some.injEq] at hl; show l < tp.epoch; omega
       · intro ep' he; cases he
@@ -706,13 +722,14 @@ theorem step_sinv {E : Env} {s : St} (ev : Event) (h : SInv E s) (hw : EvWfC E s
     · exact sinv_frame h rfl rfl rfl rfl rfl rfl
     · exact h
   | expire e =>
-    refine ⟨h.ct, omE_updOm (E := E) e expire_mono h.omE, h.certLe, h.idleLt, h.ready, h.signing, h.avk, h.esRound⟩
+    refine ⟨h.ct, omE_updOm (E := E) e expire_mono h.omE, h.certLe, h.idleLt, h.ready, h.signing, h.avk, h.esRound, h.roundGt⟩
   | restart =>
-    refine ⟨h.ct, h.omE, h.certLe, ?_, ?_, ?_, h.avk, ?_⟩
+    refine ⟨h.ct, h.omE, h.certLe, ?_, ?_, ?_, h.avk, ?_, ?_⟩
     · intro l hl; cases hl
     · intro ep he; cases he
     · intro ep e he; cases he
     · intro ep he; cases he
+    · intro K hK; cases hK
 
 def RunWfC (E : Env) : St → List Event → Prop
   | _, [] => True
@@ -725,7 +742,7 @@ theorem run_sinv (E : Env) : ∀ (evs : List Event) (s : St), SInv E s → RunWf
   | cons ev r ih => intro s h hw; exact ih _ (step_sinv ev h hw.1) hw.2
 
 theorem sinv_init (E : Env) (n g : Nat) : SInv E (init n g) := by
-  refine ⟨CT_init g, ?_, ?_, ?_, ?_, ?_, ?_, ?_⟩
+  refine ⟨CT_init g, ?_, ?_, ?_, ?_, ?_, ?_, ?_, ?_⟩
   · intro o ho; simp [init] at ho
   · intro c hc; simp [init] at hc; subst hc; simp [init]
   · intro l hl; simp [init] at hl
@@ -733,5 +750,22 @@ theorem sinv_init (E : Env) (n g : Nat) : SInv E (init n g) := by
   · intro ep e he; simp [init] at he
   · intro c hc; simp [init] at hc; subst hc; rfl
   · intro ep he; simp [init] at he
+  · intro K hK; simp [init] at hK
+
+/-- registrations are frozen: once a certificate of epoch `e` is stored, a registration is only
+accepted for a key above `e` — the signer sets of the keys `e - 1` (aggregate key of epoch `e`) and
+`e` (next aggregate key) never change afterwards -/
+theorem regs_frozen {E : Env} {s : St} (h : SInv E s) {key party : Nat} (hr : regClass s key party = .ok) :
+    ∀ c ∈ s.certs, c.epoch < key := by
+  unfold regClass at hr
+  split at hr
+  · cases hr
+  · rename_i k hk
+    split at hr
+    · cases hr
+    · rename_i hkk
+      have : k = key := by simpa using hkk
+      subst this
+      exact h.roundGt k hk
 
 end Agg
